@@ -28,5 +28,22 @@ theorem C16_code_sample (r : QReg R) (count : Nat) (g : List R) (hq : r.qMask = 
   obtain ⟨hist, h, hlen⟩ := C16_len r count g hq hg
   exact ⟨hist, h, hlen, fun hpos => C16_total r count g hq hg hpos hist h⟩
 
+/-- **no shots on an impossible outcome, for the translated `sample_all`**: a basis state whose reported probability is
+exactly 0 gets the cell 0 (under the same two facts about the scalar arithmetic as `C16_zero`) -/
+theorem C16_code_zero (r : QReg R) (count : Nat) (g : List R) (hq : r.qMask = 2 ^ r.qNum - 1) (hn : r.qNum < 64)
+    (hs : 2 ^ r.qNum ≤ r.psi.size) (hg : 2 ^ r.qNum ≤ g.length) (hlt : ¬ (0 : R) < 0)
+    (hround : ∀ c cs s x : R, QReg.HasRound.roundInt (c * 0 + cs * (HasSqrt.sqrt 0 * x - s * 0)) ≤ 0)
+    (fuel : Nat) (hist : List Nat)
+    (hf : fuel = ((QReg.sampleProposal r.getProbabilities count g).sum - count) *
+          ((QReg.sampleProposal r.getProbabilities count g).length + 1) +
+          (QReg.sampleProposal r.getProbabilities count g).length + 1 + 1)
+    (h : quant_sample_all fuel (ofModel r) count g = some hist) :
+    ∀ i : Nat, r.getProbabilities[i]? = some 0 → hist[i]? = some 0 := by
+  have hm : r.qMask < 2 ^ r.qNum := by
+    rw [hq]; exact Nat.sub_lt (Nat.pow_pos (by decide)) (by decide)
+  subst hf
+  rw [quant_sample_all_eq r count g hn hs hm hg] at h
+  exact C16_zero r count g hq hg hlt hround hist h
+
 end
 end Qvnt
